@@ -248,6 +248,11 @@ def c12(tier):
         cases.append({"id": "gen:%d" % i, "files": {"g.lox": txt.encode("utf-8", errors="replace"), "parser.go": GOOD_GO}, "want": ""})
     log("C12: %d inputs (%d configurations)" % (len(cases), ncfg))
     done = pmap(lambda a: run_case(sc, lox, a[0], a[1]), list(enumerate(cases)))
+    # a timeout under a loaded machine is not a hang: re-run those alone before believing it
+    for i, c in enumerate(done):
+        if c["obs"]["timeout"]:
+            c2 = dict(cases[i]); c2.pop("obs", None)
+            done[i] = run_case(sc, lox, 100000 + i, c2)
     json.dump([c["obs"] for c in done], open(os.path.join(sd, "pipeline_obs.json"), "w"))
     r = tlc(sc, "GenPipelineObs", cfg="GenPipelineObs.cfg", cwd=sd, timeout=900)
     tlc_must(r, "GenPipelineObs")
